@@ -437,7 +437,8 @@ impl KeyValueStore {
         let cursor = MergingCursor::new(cursors)?;
         let cursor = PruningCursor::new(cursor, timestamp)?;
         let cursor = BoundsCursor::new(cursor, start_bound, end_bound)?;
-        Ok(cursor)
+        // NOTE:  The cursor keeps the version it reads alive for as long as the caller holds it.
+        Ok(crate::tree::SnapshotCursor::new(cursor, version))
     }
 }
 
